@@ -58,19 +58,50 @@ Definition iacc_ok (tr : list event) (t : tid) (ts : tstate) : Prop :=
   | None => True
   end.
 
+(** the closure invocations of a running loop carry the shape of its kind *)
+Definition ishape_ok (tr : list event) (t : tid) (ts : tstate) : Prop :=
+  match pend_call t tr with
+  | Some (o, older) => forall l c cr, o = Loop l c cr -> forallb (shape_ok l) (t_acc ts) = true
+  | None => True
+  end.
+
 Definition pcs_of (c : cfg) : pcs := fun t => t_pc (c_pool c t).
 
+(** as long as nothing has panicked, the number of elements delivered or held is [n] *)
+Definition counting (cl : bool) (n : N) (h : list iv) : Prop := cl = true -> iv_total h = n.
+
+(** the part of the invariant that needs a fused wrapped iterator: positions and indices coincide, so
+    that the intervals delivered or held (which mix both) tile [0, cursor) *)
+Record IInvAF (c : cfg) : Prop := {
+  af_prot : ProtF (e_len e) (s_c (c_sh c)) (s_y (c_sh c)) (s_cur (c_sh c)) (pcs_of c);
+  af_til  : tiling (npanic (c_trace c)) (s_cur (c_sh c)) (cov e (c_trace c) ++ helds e L (c_pool c));
+  af_acc  : forall t, iacc_ok (c_trace c) t (c_pool c t)
+}.
+
+(** the invariant of every wrapped iterator, fused or not; the fused part under the hypothesis *)
 Record IInvA (c : cfg) : Prop := {
   a_wf   : forall t, ipc_ok (c_pool c t) /\ Forall wf_op (t_todo (c_pool c t)) /\ wf_buf (t_buf (c_pool c t));
   a_out  : forall t, ~ In t L -> is_idle (c_pool c t) = true;
   a_call : forall t, icall_ok (c_trace c) t (c_pool c t);
   a_pend : n_pending (c_trace c) = sumZ (fun t => pendZ (c_pool c t)) L;
   a_prot : Prot (e_len e) (s_c (c_sh c)) (s_y (c_sh c)) (s_cur (c_sh c)) (pcs_of c);
-  a_til  : tiling (npanic (c_trace c)) (s_cur (c_sh c)) (cov e (c_trace c) ++ helds e L (c_pool c));
   a_buf  : forall t bf, t_buf (c_pool c t) = Some bf -> buf_size t (c_trace c) = Some (bf_c bf);
-  a_acc  : forall t, iacc_ok (c_trace c) t (c_pool c t);
-  a_nofin : has_final (c_trace c) = false
+  a_shape : forall t, ishape_ok (c_trace c) t (c_pool c t);
+  a_nofin : has_final (c_trace c) = false;
+  a_cnt  : counting (npanic (c_trace c)) (s_cur (c_sh c)) (cov e (c_trace c) ++ helds e L (c_pool c));
+  a_fu   : fused e -> IInvAF c
 }.
+
+Lemma a_protF c : IInvA c -> fused e ->
+  ProtF (e_len e) (s_c (c_sh c)) (s_y (c_sh c)) (s_cur (c_sh c)) (pcs_of c).
+Proof. intros I Hfu. apply (af_prot c (a_fu c I Hfu)). Qed.
+
+Lemma a_til c : IInvA c -> fused e ->
+  tiling (npanic (c_trace c)) (s_cur (c_sh c)) (cov e (c_trace c) ++ helds e L (c_pool c)).
+Proof. intros I Hfu. apply (af_til c (a_fu c I Hfu)). Qed.
+
+Lemma a_acc c : IInvA c -> fused e -> forall t, iacc_ok (c_trace c) t (c_pool c t).
+Proof. intros I Hfu. apply (af_acc c (a_fu c I Hfu)). Qed.
 
 (** mutual exclusion: at most one thread is inside the critical section *)
 Theorem mutex c : IInvA c -> forall t u,
@@ -84,12 +115,17 @@ Lemma iA_commit c t sh' ts' l evs :
   icall_ok (evs ++ c_trace c) t ts' ->
   n_pending (evs ++ c_trace c) = (n_pending (c_trace c) - pendZ (c_pool c t) + pendZ ts')%Z ->
   Prot (e_len e) (s_c sh') (s_y sh') (s_cur sh') (upd (pcs_of c) t (t_pc ts')) ->
-  tiling (npanic (evs ++ c_trace c)) (s_cur sh') (cov e (evs ++ c_trace c) ++ helds e L (upd (c_pool c) t ts')) ->
+  (fused e -> ProtF (e_len e) (s_c sh') (s_y sh') (s_cur sh') (upd (pcs_of c) t (t_pc ts'))) ->
+  (fused e -> tiling (npanic (evs ++ c_trace c)) (s_cur sh') (cov e (evs ++ c_trace c) ++ helds e L (upd (c_pool c) t ts'))) ->
   (forall bf, t_buf ts' = Some bf -> buf_size t (evs ++ c_trace c) = Some (bf_c bf)) ->
-  iacc_ok (evs ++ c_trace c) t ts' ->
+  (fused e -> iacc_ok (evs ++ c_trace c) t ts') ->
+  ishape_ok (evs ++ c_trace c) t ts' ->
+  counting (npanic (evs ++ c_trace c)) (s_cur sh') (cov e (evs ++ c_trace c) ++ helds e L (upd (c_pool c) t ts')) ->
   IInvA (commit c t sh' ts' l evs).
 Proof.
-  intros I Hin Fev Hpc Htodo Hbuf Hcall Hpend Hprot Htil Hbs Hacc.
+  intros I Hin Fev Hpc Htodo Hbuf Hcall Hpend Hprot HprotF Htil Hbs Hacc Hshape Hcnt.
+  assert (Hpe : forall u, (if Nat.eqb u t then t_pc ts' else pcs_of c u) = t_pc (upd (c_pool c) t ts' u)).
+  { intros u. unfold pcs_of, upd. destruct (Nat.eqb u t); reflexivity. }
   split; cbn [commit c_pool c_trace c_sh].
   - intros u. destruct (Nat.eq_dec u t) as [->|Hn].
     + rewrite upd_same. auto.
@@ -106,16 +142,24 @@ Proof.
     + apply sumZ_ext. intros u _. unfold upd. destruct (Nat.eqb u t); reflexivity.
   - eapply prot_ext; [|exact Hprot]. intros u. unfold pcs_of, commit. cbn [c_pool]. unfold upd.
     destruct (Nat.eqb u t); reflexivity.
-  - exact Htil.
   - intros u bf. destruct (Nat.eq_dec u t) as [->|Hn].
     + rewrite upd_same. apply Hbs.
     + rewrite upd_other by assumption. rewrite (buf_size_others t u evs _ Hn Fev). apply (a_buf c I).
   - intros u. destruct (Nat.eq_dec u t) as [->|Hn].
     + rewrite upd_same. assumption.
-    + rewrite upd_other by assumption. unfold iacc_ok.
-      rewrite (pend_call_others t u evs _ Hn Fev). apply (a_acc c I).
+    + rewrite upd_other by assumption. unfold ishape_ok.
+      rewrite (pend_call_others t u evs _ Hn Fev). apply (a_shape c I).
   - pose proof (a_nofin c I) as Hn. clear - Fev Hn. induction evs as [|ev evs IH]; [exact Hn|].
     inversion Fev as [|? ? H1 H2]; subst. cbn [app]. destruct ev; cbn [ev_of] in H1; try contradiction; cbn [has_final]; auto.
+  - exact Hcnt.
+  - intros Hfu. split; cbn [commit c_pool c_trace c_sh].
+    + eapply protF_ext; [|exact (HprotF Hfu)]. intros u. unfold pcs_of, commit. cbn [c_pool]. unfold upd.
+      destruct (Nat.eqb u t); reflexivity.
+    + exact (Htil Hfu).
+    + intros u. destruct (Nat.eq_dec u t) as [->|Hn].
+      * rewrite upd_same. exact (Hacc Hfu).
+      * rewrite upd_other by assumption. unfold iacc_ok.
+        rewrite (pend_call_others t u evs _ Hn Fev). apply (a_acc c I Hfu).
 Qed.
 
 (** the tiling after a step, from a local statement about what thread [t] holds *)
@@ -143,6 +187,56 @@ Proof.
   intros I Hin Hcl T P. eapply htil_gen; [exact Hin| |exact T].
   intros rest T1. eapply tiling_weaken; [exact Hcl|].
   eapply tiling_perm; [|exact T1]. apply Permutation_app_tail. symmetry. exact P.
+Qed.
+
+(** the count after a step, from a local statement about what thread [t] holds *)
+Lemma iv_total_held ts : iv_total (held e ts) = iv_total (acc_iv e ts) + N.of_nat (length (got_of (t_pc ts))).
+Proof. unfold held. rewrite iv_total_app. destruct (t_pc ts); cbn [iv_total got_of length N.of_nat snd]; lia. Qed.
+
+Lemma hcnt_step cl cl' n n' pool t (tr : list event) newcov ts' :
+  In t L -> (cl' = true -> cl = true) ->
+  (cl' = true -> iv_total newcov + iv_total (held e ts') + n = n' + iv_total (held e (pool t))) ->
+  counting cl n (cov e tr ++ helds e L pool) ->
+  counting cl' n' ((newcov ++ cov e tr) ++ helds e L (upd pool t ts')).
+Proof.
+  intros Hin Hcl Hloc C Hc'. specialize (C (Hcl Hc')). specialize (Hloc Hc').
+  destruct (helds_upd e L pool t ts' NDL Hin) as (rest & P1 & P2).
+  rewrite !iv_total_app in *. rewrite (iv_total_perm _ _ P2), iv_total_app.
+  rewrite (iv_total_perm _ _ P1), iv_total_app in C. lia.
+Qed.
+
+Lemma iv_total_runs rs : iv_total (map (run_iv e) rs) = total_cnt rs.
+Proof. induction rs as [|r rs IH]; [reflexivity|]. cbn [map iv_total total_cnt run_iv snd]. rewrite IH. reflexivity. Qed.
+
+Lemma total_cnt_strip rs : total_cnt (map strip_idx rs) = total_cnt rs.
+Proof. induction rs as [|r rs IH]; [reflexivity|]. cbn [map total_cnt strip_idx mk_run r_cnt]. rewrite IH. reflexivity. Qed.
+
+Lemma total_cnt_take : forall rs k, k <= total_cnt rs -> total_cnt (runs_take k rs) = k.
+Proof.
+  induction rs as [|r rs IH]; intros k Hle; cbn [runs_take total_cnt] in *; [lia|].
+  destruct (N.eqb_spec k 0) as [->|Hz]; [reflexivity|]. destruct (N.leb_spec (r_cnt r) k) as [H|H].
+  - cbn [total_cnt]. rewrite IH by lia. lia.
+  - cbn [total_cnt mk_run r_cnt]. lia.
+Qed.
+
+Lemma total_cnt_runs_of vs : forall i, total_cnt (runs_of i vs) = N.of_nat (length vs).
+Proof.
+  induction vs as [|v vs IH]; intros i; [reflexivity|]. cbn [runs_of length]. specialize (IH (i + 1)).
+  destruct (runs_of (i + 1) vs) as [|r rs].
+  - cbn [total_cnt mk_run r_cnt] in *. lia.
+  - destruct (r_val r =? v + 1); cbn [total_cnt mk_run r_cnt] in *; lia.
+Qed.
+
+Lemma loop_invoke_total l crash done rs cnt inv :
+  loop_invoke l crash done rs cnt = (inv, None) -> iv_total (map (run_iv e) inv) = total_cnt rs.
+Proof.
+  unfold loop_invoke.
+  assert (Hm : iv_total (map (run_iv e) (map (match l with LEnum => fun r => r | _ => strip_idx end) rs)) = total_cnt rs).
+  { rewrite iv_total_runs. destruct l; [apply total_cnt_strip| |apply total_cnt_strip].
+    induction rs as [|r rs IH]; [reflexivity|]. cbn [map total_cnt]. rewrite IH. reflexivity. }
+  destruct crash as [k|].
+  - destruct ((done <=? k) && (k <? done + cnt)); intros E; [discriminate E|]. injection E as <-. exact Hm.
+  - intros E. injection E as <-. exact Hm.
 Qed.
 
 (** ** the call point *)
@@ -222,13 +316,18 @@ Proof.
       * cbn [t_pc]. rewrite Hrq. eapply call_res_buf; [|exact E]. reflexivity.
     + cbn [app]. rewrite n_pending_call. unfold pendZ. rewrite Hidle, Hni. lia.
     + cbn [t_pc]. apply prot_idle; try assumption. apply (a_prot c I).
-    + cbn [app cov]. change (cov e (c_trace c)) with ([] ++ cov e (c_trace c)).
-      eapply htil_same; try eassumption; [|apply (a_til c I)|].
+    + intros Hfu. cbn [t_pc]. apply protF_idle; try assumption. apply (a_protF c I Hfu).
+    + intros Hfu. cbn [app cov]. change (cov e (c_trace c)) with ([] ++ cov e (c_trace c)).
+      eapply htil_same; try eassumption; [|apply (a_til c I Hfu)|].
       * intros C. exact C.
       * rewrite Hheld, Hheld'. apply Permutation_refl.
     + cbn [t_buf app]. intros bf Hbf. rewrite buf_size_call_nonbuf by assumption. apply (a_buf c I). assumption.
-    + unfold iacc_ok. cbn [app]. rewrite pend_call_self_call. unfold acc_iv. cbn [t_acc map rev forallb increasing all_above].
+    + intros Hfu. unfold iacc_ok. cbn [app]. rewrite pend_call_self_call. unfold acc_iv. cbn [t_acc map rev forallb increasing all_above].
       repeat split; auto.
+    + unfold ishape_ok. cbn [app]. rewrite pend_call_self_call. intros; reflexivity.
+    + cbn [app cov]. change (cov e (c_trace c)) with ([] ++ cov e (c_trace c)).
+      apply hcnt_step with (cl := npanic (c_trace c)) (n := s_cur (c_sh c)); [exact Hin|intros C; exact C| |apply (a_cnt c I)].
+      intros _. rewrite Hheld, Hheld'. cbn [iv_total]. lia.
   - (* the operation returns at once *)
     assert (Hnull : null_pair o r = true /\ wf_buf b /\
                     (forall bf, b = Some bf -> buf_size t (ERet t r d :: ECall t o :: c_trace c) = Some (bf_c bf))).
@@ -256,11 +355,17 @@ Proof.
     + unfold icall_ok, is_idle. cbn [t_pc app]. apply pend_call_self_ret.
     + cbn [app]. rewrite n_pending_ret, n_pending_call. unfold pendZ, is_idle. cbn [t_pc]. rewrite Hpc. lia.
     + cbn [t_pc]. apply prot_idle; try assumption; try reflexivity; try discriminate. apply (a_prot c I).
-    + cbn [app cov]. rewrite Hcov.
-      eapply htil_same; try eassumption; [|apply (a_til c I)|].
+    + intros Hfu. cbn [t_pc]. apply protF_idle; try assumption; try reflexivity; try discriminate. apply (a_protF c I Hfu).
+    + intros Hfu. cbn [app cov]. rewrite Hcov.
+      eapply htil_same; try eassumption; [|apply (a_til c I Hfu)|].
       * intros C. eapply npanic_cons, npanic_cons. exact C.
       * rewrite Hheld. unfold held, acc_iv. cbn [t_acc t_pc map app]. apply Permutation_refl.
-    + unfold iacc_ok. cbn [app]. rewrite pend_call_self_ret. exact I0.
+    + intros Hfu. unfold iacc_ok. cbn [app]. rewrite pend_call_self_ret. exact I0.
+    + unfold ishape_ok. cbn [app]. rewrite pend_call_self_ret. exact I0.
+    + cbn [app cov]. rewrite Hcov.
+      apply hcnt_step with (cl := npanic (c_trace c)) (n := s_cur (c_sh c)); [exact Hin| | |apply (a_cnt c I)].
+      * intros C. eapply npanic_cons, npanic_cons. exact C.
+      * intros _. rewrite Hheld. unfold held, acc_iv. cbn [t_acc t_pc map app iv_total]. lia.
 Qed.
 
 (** ** steps that only move the program counter *)
@@ -274,11 +379,13 @@ Lemma iA_silent c t sh' p' l :
   entry_of p' = entry_of (t_pc (c_pool c t)) ->
   ipc_ok (set_pc (c_pool c t) p') ->
   Prot (e_len e) (s_c sh') (s_y sh') (s_cur sh') (upd (pcs_of c) t p') ->
-  (forall cl rest, tiling cl (s_cur (c_sh c)) (held e (c_pool c t) ++ rest) ->
+  (fused e -> ProtF (e_len e) (s_c sh') (s_y sh') (s_cur sh') (upd (pcs_of c) t p')) ->
+  (fused e -> forall cl rest, tiling cl (s_cur (c_sh c)) (held e (c_pool c t) ++ rest) ->
                    tiling cl (s_cur sh') (held e (set_pc (c_pool c t) p') ++ rest)) ->
+  N.of_nat (length (got_of p')) + s_cur (c_sh c) = s_cur sh' + N.of_nat (length (got_of (t_pc (c_pool c t)))) ->
   IInvA (commit c t sh' (set_pc (c_pool c t) p') l []).
 Proof.
-  intros I Hin Hni Hp' Hreq Hpc Hprot Hloc.
+  intros I Hin Hni Hp' Hreq Hpc Hprot HprotF Hloc Hcn.
   destruct (a_wf c I t) as (Hok & Hops & Hbuf).
   assert (Hni' : is_idle (set_pc (c_pool c t) p') = false) by (rewrite is_idle_set_pc; destruct p'; try reflexivity; contradiction Hp'; reflexivity).
   apply iA_commit; try assumption.
@@ -288,10 +395,14 @@ Proof.
     cbn [set_pc t_pc]. rewrite Hreq.
     eapply call_res_buf; [|exact Hres]. reflexivity.
   - cbn [app]. unfold pendZ. rewrite Hni, Hni'. lia.
-  - cbn [app]. change (cov e (c_trace c)) with ([] ++ cov e (c_trace c)).
-    eapply htil_gen; [exact Hin| |apply (a_til c I)]. intros rest T. cbn [app]. apply Hloc. exact T.
+  - intros Hfu. cbn [app]. change (cov e (c_trace c)) with ([] ++ cov e (c_trace c)).
+    eapply htil_gen; [exact Hin| |apply (a_til c I Hfu)]. intros rest T. cbn [app]. apply (Hloc Hfu). exact T.
   - cbn [app set_pc t_buf]. apply (a_buf c I).
-  - pose proof (a_acc c I t) as Ha. unfold iacc_ok in *. cbn [app]. unfold acc_iv in *. cbn [set_pc t_acc]. exact Ha.
+  - intros Hfu. pose proof (a_acc c I Hfu t) as Ha. unfold iacc_ok in *. cbn [app]. unfold acc_iv in *. cbn [set_pc t_acc]. exact Ha.
+  - pose proof (a_shape c I t) as Ha. unfold ishape_ok in *. cbn [app set_pc t_acc]. exact Ha.
+  - cbn [app]. change (cov e (c_trace c)) with ([] ++ cov e (c_trace c)).
+    apply hcnt_step with (cl := npanic (c_trace c)) (n := s_cur (c_sh c)); [exact Hin|intros C; exact C| |apply (a_cnt c I)].
+    intros _. rewrite !iv_total_held. unfold acc_iv. cbn [set_pc t_pc t_acc iv_total]. lia.
 Qed.
 
 Lemma held_set_pc_nocrit ts p : in_crit p = false -> in_crit (t_pc ts) = false -> held e (set_pc ts p) = held e ts.
@@ -310,9 +421,11 @@ Lemma iA_finish_end c t sh' q l X :
   s_cur sh' = s_cur (c_sh c) ->
   (forall x, ticket x = None -> in_crit x = false -> (forall q b g, x <> PPub q b g) -> (forall q b g, x <> PSetF q b g) ->
      Prot (e_len e) (s_c sh') (s_y sh') (s_cur sh') (upd (pcs_of c) t x)) ->
+  (fused e -> forall x, ticket x = None -> in_crit x = false -> (forall q b g, x <> PPub q b g) -> (forall q b g, x <> PSetF q b g) ->
+     ProtF (e_len e) (s_c sh') (s_y sh') (s_cur sh') (upd (pcs_of c) t x)) ->
   IInvA (finish e c t sh' (c_pool c t) l q (Ok PREnd)).
 Proof.
-  intros I Hin Hreq Hheld HX Hcur Hprot.
+  intros I Hin Hreq Hheld HX Hcur Hprot HprotF.
   destruct (a_wf c I t) as (Hok & Hops & Hbuf).
   assert (Hni : is_idle (c_pool c t) = false).
   { unfold is_idle. destruct (t_pc (c_pool c t)); try reflexivity. discriminate Hreq. }
@@ -321,7 +434,6 @@ Proof.
   destruct Hwq as [Hq Hacc0].
   pose proof (a_call c I t) as Hc. unfold icall_ok in Hc. rewrite Hni in Hc.
   destruct Hc as (o & older & Hpend & Hres).
-  pose proof (a_acc c I t) as Ha. unfold iacc_ok in Ha. rewrite Hpend in Ha. destruct Ha as (Ha1 & Ha2 & Ha3 & Ha4).
   assert (HdropX : forall cl n rest, tiling cl n ((acc_iv e (c_pool c t) ++ X) ++ rest) -> tiling cl n (acc_iv e (c_pool c t) ++ rest)).
   { intros cl n rest. clear - HX. induction X as [|a X' IH]; [rewrite app_nil_r; auto|].
     intros T. apply IH; [intros; apply HX; right; assumption|].
@@ -330,6 +442,9 @@ Proof.
     pose proof (tiling_perm cl n _ _ P T) as T'.
     assert (Hz : snd a = 0) by (apply HX; left; reflexivity).
     exact (proj1 (tiling_empty_iv cl n a _ Hz) T'). }
+  assert (HX0 : forall Y : list iv, (forall a, In a Y -> snd a = 0) -> iv_total Y = 0).
+  { intros Y. induction Y as [|a Y IH]; intros HY; [reflexivity|]. cbn [iv_total].
+    rewrite (HY a (or_introl eq_refl)), IH by (intros a' Ha'; apply HY; right; exact Ha'). reflexivity. }
   unfold finish, deliver. destruct (q_ctx q) as [|lk crash] eqn:Ctx.
   - (* directly *)
     specialize (Hacc0 eq_refl).
@@ -338,14 +453,22 @@ Proof.
     + unfold icall_ok. rewrite is_idle_set_pc. cbn [app]. apply pend_call_self_ret.
     + cbn [app]. rewrite n_pending_ret. unfold pendZ. rewrite Hni, is_idle_set_pc. lia.
     + cbn [set_pc t_pc]. apply Hprot; try reflexivity; discriminate.
-    + cbn [app cov res_cover res_taken]. rewrite Hcur.
+    + intros Hfu. cbn [set_pc t_pc]. apply (HprotF Hfu); try reflexivity; discriminate.
+    + intros Hfu. cbn [app cov res_cover res_taken]. rewrite Hcur.
       change (cov e (c_trace c)) with ([] ++ cov e (c_trace c)).
-      eapply htil_gen; [exact Hin| |apply (a_til c I)]. intros rest T. cbn [app].
+      eapply htil_gen; [exact Hin| |apply (a_til c I Hfu)]. intros rest T. cbn [app].
       rewrite Hheld in T. apply HdropX in T.
       assert (held e (set_pc (c_pool c t) PIdle) = acc_iv e (c_pool c t)) as -> by (unfold held, acc_iv; cbn [set_pc t_pc t_acc]; apply app_nil_r).
       eapply tiling_weaken; [|exact T]. intros C. eapply npanic_cons. exact C.
     + cbn [app set_pc t_buf]. intros bf Hbf. rewrite buf_size_ret. apply (a_buf c I). assumption.
-    + unfold iacc_ok. cbn [app]. rewrite pend_call_self_ret. exact I0.
+    + intros Hfu. unfold iacc_ok. cbn [app]. rewrite pend_call_self_ret. exact I0.
+    + unfold ishape_ok. cbn [app]. rewrite pend_call_self_ret. exact I0.
+    + cbn [app cov res_cover res_taken]. rewrite Hcur.
+      change (cov e (c_trace c)) with ([] ++ cov e (c_trace c)).
+      apply hcnt_step with (cl := npanic (c_trace c)) (n := s_cur (c_sh c)); [exact Hin| | |apply (a_cnt c I)].
+      * intros C. eapply npanic_cons. exact C.
+      * intros _. rewrite Hheld, iv_total_app, (HX0 X HX). unfold held, acc_iv. cbn [set_pc t_pc t_acc iv_total].
+        rewrite iv_total_app. cbn [iv_total]. lia.
   - (* the loop returns *)
     cbn [ret_ev]. apply iA_commit; try assumption.
     + repeat constructor.
@@ -353,14 +476,21 @@ Proof.
     + unfold icall_ok, is_idle. cbn [t_pc app]. apply pend_call_self_ret.
     + cbn [app]. rewrite n_pending_ret. unfold pendZ. rewrite Hni. unfold is_idle. cbn [t_pc]. lia.
     + cbn [t_pc]. apply Hprot; try reflexivity; discriminate.
-    + cbn [app cov res_cover res_taken]. rewrite Hcur.
-      eapply htil_gen; [exact Hin| |apply (a_til c I)]. intros rest T.
+    + intros Hfu. cbn [t_pc]. apply (HprotF Hfu); try reflexivity; discriminate.
+    + intros Hfu. cbn [app cov res_cover res_taken]. rewrite Hcur.
+      eapply htil_gen; [exact Hin| |apply (a_til c I Hfu)]. intros rest T.
       rewrite Hheld in T. apply HdropX in T.
       assert (held e {| t_pc := PIdle; t_todo := t_todo (c_pool c t); t_buf := t_buf (c_pool c t); t_acc := [] |} = []) as -> by reflexivity.
       rewrite app_nil_r. eapply tiling_weaken; [intros C; eapply npanic_cons; exact C|].
       eapply tiling_perm; [|exact T]. apply Permutation_app_tail. unfold acc_iv. rewrite map_rev. apply Permutation_rev.
     + cbn [app t_buf]. intros bf Hbf. rewrite buf_size_ret. apply (a_buf c I). assumption.
-    + unfold iacc_ok. cbn [app]. rewrite pend_call_self_ret. exact I0.
+    + intros Hfu. unfold iacc_ok. cbn [app]. rewrite pend_call_self_ret. exact I0.
+    + unfold ishape_ok. cbn [app]. rewrite pend_call_self_ret. exact I0.
+    + cbn [app cov res_cover res_taken]. rewrite Hcur.
+      apply hcnt_step with (cl := npanic (c_trace c)) (n := s_cur (c_sh c)); [exact Hin| | |apply (a_cnt c I)].
+      * intros C. eapply npanic_cons. exact C.
+      * intros _. rewrite Hheld, iv_total_app, (HX0 X HX). unfold held, acc_iv. cbn [t_pc t_acc map iv_total app].
+        rewrite map_rev, (iv_total_perm _ _ (Permutation_sym (Permutation_rev _))). lia.
 Qed.
 
 (** ** reserving, testing the flag, waiting for the turn *)
@@ -388,7 +518,11 @@ Proof.
   - cbn [with_c s_c s_y s_cur].
     apply prot_reserve; [apply (a_prot c I) | unfold pcs_of; rewrite Hpc; reflexivity | unfold pcs_of; rewrite Hpc; reflexivity
                         | reflexivity | reflexivity | rewrite (pub_incr_n q Hq); destruct Hq; assumption | discriminate | discriminate].
-  - intros cl rest T. cbn [with_c s_cur]. rewrite held_set_pc_nocrit; [exact T|reflexivity|rewrite Hpc; reflexivity].
+  - intros Hfu. cbn [with_c s_c s_y s_cur].
+    apply protF_reserve; [apply (a_prot c I) | apply (a_protF c I Hfu) | unfold pcs_of; rewrite Hpc; reflexivity | unfold pcs_of; rewrite Hpc; reflexivity
+                        | reflexivity | reflexivity | rewrite (pub_incr_n q Hq); destruct Hq; assumption | discriminate | discriminate].
+  - intros Hfu cl rest T. cbn [with_c s_cur]. rewrite held_set_pc_nocrit; [exact T|reflexivity|rewrite Hpc; reflexivity].
+  - rewrite Hpc. cbn [got_of length N.of_nat with_c with_f with_y with_src s_cur]. lia.
 Qed.
 
 Lemma iA_chkf c t q b :
@@ -404,13 +538,16 @@ Proof.
     + intros a [].
     + reflexivity.
     + intros x Tx Cx N1 N2. apply prot_leave; try assumption; [apply (a_prot c I)|unfold pcs_of; rewrite Hpc; reflexivity].
+    + intros Hfu x Tx Cx N1 N2. apply protF_leave; try assumption; [apply (a_protF c I Hfu)|unfold pcs_of; rewrite Hpc; reflexivity].
   - apply iA_silent; try assumption.
     + unfold is_idle. rewrite Hpc. reflexivity.
     + discriminate.
     + rewrite Hpc. reflexivity.
     + unfold ipc_ok. cbn [set_pc t_pc t_acc]. split; assumption.
     + apply prot_retag; try (unfold pcs_of; rewrite Hpc; reflexivity); try discriminate. apply (a_prot c I).
-    + intros cl rest T. rewrite held_set_pc_nocrit; [exact T|reflexivity|rewrite Hpc; reflexivity].
+    + intros Hfu. apply protF_retag; try (unfold pcs_of; rewrite Hpc; reflexivity); try discriminate. apply (a_protF c I Hfu).
+    + intros Hfu cl rest T. rewrite held_set_pc_nocrit; [exact T|reflexivity|rewrite Hpc; reflexivity].
+    + rewrite Hpc. cbn [got_of length N.of_nat with_c with_f with_y with_src s_cur]. lia.
 Qed.
 
 Lemma iA_ldy c t q b :
@@ -428,10 +565,12 @@ Proof.
     + rewrite Hpc. reflexivity.
     + unfold ipc_ok. cbn [set_pc t_pc t_acc length]. split; [assumption|]. split; [assumption|]. destruct Hq. cbn. lia.
     + apply prot_enter; [apply (a_prot c I)|exact Tt|unfold pcs_of; rewrite Hpc; reflexivity].
-    + intros cl rest T. unfold held in *. rewrite Hpc in T. cbn [set_pc t_pc t_acc length]. unfold acc_iv in *. cbn [set_pc t_acc].
+    + intros Hfu. apply protF_enter; [apply (a_prot c I)|apply (a_protF c I Hfu)|exact Tt|unfold pcs_of; rewrite Hpc; reflexivity].
+    + intros Hfu cl rest T. unfold held in *. rewrite Hpc in T. cbn [set_pc t_pc t_acc length]. unfold acc_iv in *. cbn [set_pc t_acc].
       rewrite app_nil_r in T. rewrite <- app_assoc. cbn [app].
       eapply tiling_perm; [apply Permutation_middle|].
       apply (proj2 (tiling_empty_iv cl _ (s_y (c_sh c), N.of_nat 0) _ eq_refl)). exact T.
+    + rewrite Hpc. cbn [got_of length N.of_nat with_c with_f with_y with_src s_cur]. lia.
   - destruct (N.ltb_spec b (s_y (c_sh c))) as [Hlt|Hge]; [lia|].
     apply iA_silent; try assumption.
     + unfold is_idle. rewrite Hpc. reflexivity.
@@ -439,7 +578,9 @@ Proof.
     + rewrite Hpc. reflexivity.
     + unfold ipc_ok. cbn [set_pc t_pc t_acc]. split; assumption.
     + apply prot_retag; try (unfold pcs_of; rewrite Hpc; reflexivity); try discriminate. apply (a_prot c I).
-    + intros cl rest T. rewrite held_set_pc_nocrit; [exact T|reflexivity|rewrite Hpc; reflexivity].
+    + intros Hfu. apply protF_retag; try (unfold pcs_of; rewrite Hpc; reflexivity); try discriminate. apply (a_protF c I Hfu).
+    + intros Hfu cl rest T. rewrite held_set_pc_nocrit; [exact T|reflexivity|rewrite Hpc; reflexivity].
+    + rewrite Hpc. cbn [got_of length N.of_nat with_c with_f with_y with_src s_cur]. lia.
 Qed.
 
 (** ** inside the critical section: one call of the wrapped iterator *)
@@ -466,7 +607,6 @@ Proof.
   assert (Tt : ticket (pcs_of c t) = Some (b, pub_incr q)) by (unfold pcs_of; rewrite Hpc; reflexivity).
   assert (Ct : in_crit (pcs_of c t) = true) by (unfold pcs_of; rewrite Hpc; reflexivity).
   pose proof (a_prot c I) as P.
-  pose proof (p_got _ _ _ _ _ P t _ _ Ct Tt) as [Hasc Hcur]. unfold pcs_of in Hasc, Hcur. rewrite Hpc in Hasc, Hcur. cbn [got_of] in Hasc, Hcur.
   pose proof (p_cur _ _ _ _ _ P) as Hcl.
   assert (Hheld : held e (c_pool c t) = acc_iv e (c_pool c t) ++ [(b, N.of_nat (length g))]) by (unfold held; rewrite Hpc; reflexivity).
   assert (Hsame : forall x, in_crit x = true -> ticket x = Some (b, pub_incr q) -> got_of x = g ->
@@ -480,11 +620,13 @@ Proof.
   - (* the wrapped iterator panics *)
     apply iA_silent; try assumption; try discriminate; try (rewrite Hpc; reflexivity).
     + unfold ipc_ok. cbn [set_pc t_pc t_acc]. refine (conj Hq (conj Hacc _)); first [assumption|reflexivity].
-    + cbn [with_src s_c s_y s_cur]. apply prot_retag; try (unfold pcs_of; rewrite Hpc; reflexivity); try discriminate. exact P.
-    + cbn [with_src s_cur]. apply Hsame; try reflexivity. split; reflexivity.
-  - unfold src_next. destruct (N.ltb_spec (s_cur (c_sh c)) (e_len e)) as [Hsl|Hsl].
+    + cbn [with_src s_c s_y s_cur]. apply prot_retag; try (unfold pcs_of; rewrite Hpc; reflexivity). exact P.
+    + intros Hfu. cbn [with_src s_c s_y s_cur]. apply protF_retag; try (unfold pcs_of; rewrite Hpc; reflexivity); try discriminate.
+      apply (a_protF c I Hfu).
+    + intros Hfu. cbn [with_src s_cur]. apply Hsame; try reflexivity. split; reflexivity.
+    + rewrite Hpc. cbn [got_of length N.of_nat with_c with_f with_y with_src s_cur]. lia.
+  - destruct (src_next_cases e (c_sh c)) as [[Es Hsl]|[Es Hsl]]; rewrite Es.
     + (* an element *)
-      assert (Hc : s_cur (c_sh c) = b + N.of_nat (length g)) by (destruct Hcur as [H|[_ H]]; [exact H|lia]).
       assert (Hgo : forall x, (x = PSrc q b (s_cur (c_sh c) :: g) /\ N.of_nat (length (s_cur (c_sh c) :: g)) < q_n q) \/
                               (x = PPub q b (s_cur (c_sh c) :: g) /\ N.of_nat (length (s_cur (c_sh c) :: g)) = q_n q) ->
                 IInvA (commit c t (with_src (c_sh c) (s_cur (c_sh c) + 1) (s_calls (c_sh c) + 1)) (set_pc (c_pool c t) x)
@@ -497,10 +639,15 @@ Proof.
           destruct g; [reflexivity|cbn [length] in Hlt; rewrite Nat2N.inj_succ in Hlt; lia].
         - cbn [with_src s_c s_y s_cur]. eapply prot_take; [exact P|unfold pcs_of; exact Hpc|exact Hsl|].
           destruct Hx as [[-> _]|[-> Hl]]; [left; reflexivity|right; split; [reflexivity|]]. rewrite (pub_incr_n q Hq). exact Hl.
-        - intros cl rest T. cbn [with_src s_cur]. rewrite Hheld in T.
+        - intros Hfu. cbn [with_src s_c s_y s_cur]. eapply protF_take; [exact P|apply (a_protF c I Hfu)|unfold pcs_of; exact Hpc|exact Hsl|].
+          destruct Hx as [[-> _]|[-> Hl]]; [left; reflexivity|right; split; [reflexivity|]]. rewrite (pub_incr_n q Hq). exact Hl.
+        - intros Hfu cl rest T. cbn [with_src s_cur]. rewrite Hheld in T.
+          pose proof (p_got _ _ _ _ _ (a_protF c I Hfu) t _ _ Ct Tt) as [_ Hcur]. unfold pcs_of in Hcur. rewrite Hpc in Hcur. cbn [got_of] in Hcur.
+          assert (Hc : s_cur (c_sh c) = b + N.of_nat (length g)) by (destruct Hcur as [H|[_ H]]; [exact H|lia]).
           assert (held e (set_pc (c_pool c t) x) = acc_iv e (c_pool c t) ++ [(b, N.of_nat (length g) + 1)]) as ->.
           { unfold held, acc_iv. cbn [set_pc t_pc t_acc]. destruct Hx as [[-> _]|[-> _]]; cbn [length]; rewrite Nat2N.inj_succ; f_equal; f_equal; f_equal; lia. }
-          apply held_grow; [exact T|lia]. }
+          apply held_grow; [exact T|lia].
+        - cbn [with_src s_cur]. rewrite Hpc. destruct Hx as [[-> _]|[-> _]]; cbn [got_of length]; rewrite Nat2N.inj_succ; lia. }
       destruct (q_mode q) eqn:M.
       * assert (g = []) as Hg0.
         { destruct Hq as (_ & _ & H1). rewrite (H1 _ M) in Hlt. destruct g; [reflexivity|cbn [length] in Hlt; rewrite Nat2N.inj_succ in Hlt; lia]. }
@@ -509,19 +656,21 @@ Proof.
         cbn [length] in *. rewrite Nat2N.inj_succ in *. lia.
       * destruct (N.eqb_spec (N.of_nat (length (s_cur (c_sh c) :: g))) (q_n q)); apply Hgo; [right; split; [reflexivity|assumption]|left; split; [reflexivity|]].
         cbn [length] in *. rewrite Nat2N.inj_succ in *. lia.
-    + (* the wrapped iterator is exhausted *)
-      assert (Hex : s_cur (c_sh c) = e_len e) by lia.
+    + (* the wrapped iterator answers None: when it is fused, it is exhausted *)
       assert (Hgo : forall x, in_crit x = true -> ticket x = Some (b, pub_incr q) -> got_of x = g -> x <> PIdle -> req_of x = Some q ->
                 (match x with PSrc _ b' g' | PSetF _ b' g' | PPub _ b' g' | PUnw _ b' g' => b' = b /\ g' = g | _ => False end) ->
                 ipc_ok (set_pc (c_pool c t) x) ->
                 IInvA (commit c t (with_src (c_sh c) (s_cur (c_sh c)) (s_calls (c_sh c) + 1)) (set_pc (c_pool c t) x) (LSrc t None) [])).
       { intros x Cx Tx Gx Nx Rx Hx Hix. apply iA_silent; try assumption.
         - unfold entry_of. rewrite Rx, Hpc. reflexivity.
-        - cbn [with_src s_c s_y s_cur]. apply prot_retag; try (unfold pcs_of; rewrite Hpc; cbn; congruence).
-          + exact P.
+        - cbn [with_src s_c s_y s_cur]. apply prot_retag; try (unfold pcs_of; rewrite Hpc; cbn; congruence). exact P.
+        - intros Hfu. assert (Hex : s_cur (c_sh c) = e_len e) by (specialize (Hsl Hfu); lia).
+          cbn [with_src s_c s_y s_cur]. apply protF_retag; try (unfold pcs_of; rewrite Hpc; cbn; congruence).
+          + apply (a_protF c I Hfu).
           + intros; right; exact Hex.
           + intros; exact Hex.
-        - cbn [with_src s_cur]. apply Hsame; assumption. }
+        - intros Hfu. cbn [with_src s_cur]. apply Hsame; assumption.
+        - cbn [with_src s_cur]. rewrite Hpc, Gx. cbn [got_of]. lia. }
       destruct (q_mode q) eqn:M.
       * assert (g = []) as -> by (destruct Hq as (_ & _ & H1); rewrite (H1 _ M) in Hlt; destruct g; [reflexivity|cbn [length] in Hlt; rewrite Nat2N.inj_succ in Hlt; lia]).
         apply Hgo; try reflexivity; try discriminate; [split; reflexivity|].
@@ -541,7 +690,8 @@ Proof.
   destruct (ipc_req c t q I) as [Hq Hacc]; [rewrite Hpc; reflexivity|].
   destruct (a_wf c I t) as (Hok & _ & _). unfold ipc_ok in Hok. rewrite Hpc in Hok. destruct Hok as (_ & _ & Hlt).
   pose proof (a_prot c I) as P.
-  pose proof (p_setf _ _ _ _ _ P t q b g ltac:(unfold pcs_of; exact Hpc)) as Hex.
+  assert (Hex : fused e -> s_cur (c_sh c) = e_len e).
+  { intros Hfu. exact (p_setf _ _ _ _ _ (a_protF c I Hfu) t q b g ltac:(unfold pcs_of; exact Hpc)). }
   destruct (q_mode q) eqn:M.
   - (* a single pull: it reports the end without publishing *)
     assert (g = []) as -> by (destruct Hq as (_ & _ & H1); rewrite (H1 _ M) in Hlt; destruct g; [reflexivity|cbn [length] in Hlt; rewrite Nat2N.inj_succ in Hlt; lia]).
@@ -551,22 +701,27 @@ Proof.
     + intros a [<-|[]]. reflexivity.
     + reflexivity.
     + intros x Tx Cx N1 N2. cbn [with_f s_c s_y s_cur]. apply prot_abandon; try assumption. unfold pcs_of. rewrite Hpc. reflexivity.
+    + intros Hfu x Tx Cx N1 N2. cbn [with_f s_c s_y s_cur]. apply protF_abandon; try assumption; [apply (a_protF c I Hfu)|]. unfold pcs_of. rewrite Hpc. reflexivity.
   - apply iA_silent; try assumption; try discriminate.
     + unfold is_idle. rewrite Hpc. reflexivity.
     + rewrite Hpc. reflexivity.
     + unfold ipc_ok. cbn [set_pc t_pc t_acc]. refine (conj Hq (conj Hacc (conj _ _))); [lia|].
       intros v Mv. rewrite M in Mv. discriminate.
-    + cbn [with_f s_c s_y s_cur]. apply prot_retag; try (unfold pcs_of; rewrite Hpc; reflexivity); [exact P| |discriminate].
-      intros; right; exact Hex.
-    + intros cl rest T. cbn [with_f s_cur]. unfold held in *. rewrite Hpc in T. cbn [set_pc t_pc]. unfold acc_iv in *. cbn [set_pc t_acc]. exact T.
+    + cbn [with_f s_c s_y s_cur]. apply prot_retag; try (unfold pcs_of; rewrite Hpc; reflexivity). exact P.
+    + intros Hfu. cbn [with_f s_c s_y s_cur]. apply protF_retag; try (unfold pcs_of; rewrite Hpc; reflexivity); [apply (a_protF c I Hfu)| |discriminate].
+      intros; right; exact (Hex Hfu).
+    + intros Hfu cl rest T. cbn [with_f s_cur]. unfold held in *. rewrite Hpc in T. cbn [set_pc t_pc]. unfold acc_iv in *. cbn [set_pc t_acc]. exact T.
+    + rewrite Hpc. cbn [got_of length N.of_nat with_c with_f with_y with_src s_cur]. lia.
   - apply iA_silent; try assumption; try discriminate.
     + unfold is_idle. rewrite Hpc. reflexivity.
     + rewrite Hpc. reflexivity.
     + unfold ipc_ok. cbn [set_pc t_pc t_acc]. refine (conj Hq (conj Hacc (conj _ _))); [lia|].
       intros v Mv. rewrite M in Mv. discriminate.
-    + cbn [with_f s_c s_y s_cur]. apply prot_retag; try (unfold pcs_of; rewrite Hpc; reflexivity); [exact P| |discriminate].
-      intros; right; exact Hex.
-    + intros cl rest T. cbn [with_f s_cur]. unfold held in *. rewrite Hpc in T. cbn [set_pc t_pc]. unfold acc_iv in *. cbn [set_pc t_acc]. exact T.
+    + cbn [with_f s_c s_y s_cur]. apply prot_retag; try (unfold pcs_of; rewrite Hpc; reflexivity). exact P.
+    + intros Hfu. cbn [with_f s_c s_y s_cur]. apply protF_retag; try (unfold pcs_of; rewrite Hpc; reflexivity); [apply (a_protF c I Hfu)| |discriminate].
+      intros; right; exact (Hex Hfu).
+    + intros Hfu cl rest T. cbn [with_f s_cur]. unfold held in *. rewrite Hpc in T. cbn [set_pc t_pc]. unfold acc_iv in *. cbn [set_pc t_acc]. exact T.
+    + rewrite Hpc. cbn [got_of length N.of_nat with_c with_f with_y with_src s_cur]. lia.
 Qed.
 
 (** ** results that deliver nothing, from a thread without a ticket (skip_to_end, the length queries) *)
@@ -588,12 +743,18 @@ Proof.
   - unfold icall_ok. rewrite is_idle_set_pc. cbn [app]. apply pend_call_self_ret.
   - cbn [app]. rewrite n_pending_ret. unfold pendZ. rewrite Hni, is_idle_set_pc. lia.
   - rewrite E1, E2, E3. cbn [set_pc t_pc]. apply prot_idle; try reflexivity; try discriminate; [apply (a_prot c I)|exact Tt].
-  - cbn [app cov]. rewrite Hcov, E3.
-    eapply htil_same; try eassumption; [|apply (a_til c I)|].
+  - intros Hfu. rewrite E1, E2, E3. cbn [set_pc t_pc]. apply protF_idle; try reflexivity; try discriminate; [apply (a_protF c I Hfu)|exact Tt].
+  - intros Hfu. cbn [app cov]. rewrite Hcov, E3.
+    eapply htil_same; try eassumption; [|apply (a_til c I Hfu)|].
     + intros C. eapply npanic_cons. exact C.
     + rewrite Hheld. unfold held, acc_iv. cbn [set_pc t_pc t_acc]. rewrite Hacc. apply Permutation_refl.
   - cbn [app set_pc t_buf]. intros bf Hbf. rewrite buf_size_ret. apply (a_buf c I). assumption.
-  - unfold iacc_ok. cbn [app]. rewrite pend_call_self_ret. exact I0.
+  - intros Hfu. unfold iacc_ok. cbn [app]. rewrite pend_call_self_ret. exact I0.
+  - unfold ishape_ok. cbn [app]. rewrite pend_call_self_ret. exact I0.
+  - cbn [app cov]. rewrite Hcov, E3.
+    apply hcnt_step with (cl := npanic (c_trace c)) (n := s_cur (c_sh c)); [exact Hin| | |apply (a_cnt c I)].
+    + intros C. eapply npanic_cons. exact C.
+    + intros _. rewrite Hheld. unfold held, acc_iv. cbn [set_pc t_pc t_acc]. rewrite Hacc. cbn [map app iv_total]. lia.
 Qed.
 
 Lemma iA_skip c t : IInvA c -> In t L -> t_pc (c_pool c t) = PSkip -> IInvA (step e c t).
@@ -618,7 +779,9 @@ Proof.
     + apply iA_silent; try assumption; try discriminate.
       * rewrite Hpc. reflexivity.
       * apply prot_idle; try reflexivity; try discriminate; [apply (a_prot c I)|unfold pcs_of; rewrite Hpc; reflexivity].
-      * intros cl rest T. unfold held in *. rewrite Hpc in T. cbn [set_pc t_pc]. unfold acc_iv in *. cbn [set_pc t_acc]. exact T.
+      * intros Hfu. apply protF_idle; try reflexivity; try discriminate; [apply (a_protF c I Hfu)|unfold pcs_of; rewrite Hpc; reflexivity].
+      * intros Hfu cl rest T. unfold held in *. rewrite Hpc in T. cbn [set_pc t_pc]. unfold acc_iv in *. cbn [set_pc t_acc]. exact T.
+      * rewrite Hpc. cbn [got_of length N.of_nat with_c with_f with_y with_src s_cur]. lia.
     + apply Hplain. destruct hm; reflexivity.
     + apply Hplain. destruct hm; reflexivity.
 Qed.
@@ -651,14 +814,18 @@ Proof.
   - cbn [app]. rewrite n_pending_ret. unfold pendZ. rewrite Hni. unfold is_idle. rewrite Hp'. lia.
   - cbn [with_f s_c s_y s_cur]. rewrite Hp'. apply prot_abandon; try reflexivity; try discriminate; [apply (a_prot c I)|].
     unfold pcs_of. rewrite Hpc. reflexivity.
-  - cbn [app cov res_cover res_taken with_f s_cur]. rewrite npanic_ret. cbn [is_panic negb andb].
-    eapply htil_gen; [exact Hin| |apply (a_til c I)]. intros rest T.
+  - intros Hfu. cbn [with_f s_c s_y s_cur]. rewrite Hp'. apply protF_abandon; try reflexivity; try discriminate; [apply (a_prot c I)|apply (a_protF c I Hfu)|].
+    unfold pcs_of. rewrite Hpc. reflexivity.
+  - intros Hfu. cbn [app cov res_cover res_taken with_f s_cur]. rewrite npanic_ret. cbn [is_panic negb andb].
+    eapply htil_gen; [exact Hin| |apply (a_til c I Hfu)]. intros rest T.
     unfold held in *. rewrite Hpc in T. rewrite Hp'. unfold acc_iv in *. rewrite Ha'. cbn [map app]. rewrite app_nil_r.
     apply tiling_unclean in T.
     pose proof (tiling_perm _ _ _ _ (perm_snoc_front _ _ _) T) as T1. apply tiling_drop_head in T1.
     eapply tiling_perm; [|exact T1]. apply Permutation_app_tail. rewrite map_rev. apply Permutation_rev.
   - cbn [app]. intros bf' Hbf'. rewrite buf_size_ret. destruct (Hbc bf' Hbf') as (bf & Hbf & Ec). rewrite Ec. apply (a_buf c I). assumption.
-  - unfold iacc_ok. cbn [app]. rewrite pend_call_self_ret. exact I0.
+  - intros Hfu. unfold iacc_ok. cbn [app]. rewrite pend_call_self_ret. exact I0.
+  - unfold ishape_ok. cbn [app]. rewrite pend_call_self_ret. exact I0.
+  - cbn [app]. unfold counting. rewrite npanic_ret. cbn [is_panic negb andb]. discriminate.
 Qed.
 
 Lemma iA_unw c t q b g :
@@ -759,13 +926,13 @@ Qed.
 (** everything delivered so far, and everything the thread's loop has handled, lies below what the
     thread inside the critical section has taken *)
 Lemma top_below c t b k :
-  IInvA c -> In t L ->
+  IInvA c -> fused e -> In t L ->
   held e (c_pool c t) = acc_iv e (c_pool c t) ++ [(b, k)] -> b + k = s_cur (c_sh c) -> 1 <= k ->
   iv_maxhi (cov e (c_trace c)) <= b /\ iv_maxhi (acc_iv e (c_pool c t)) <= b.
 Proof.
-  intros I Hin Hheld Hbk Hk1.
+  intros I Hfu Hin Hheld Hbk Hk1.
   destruct (helds_upd e L (c_pool c) t (c_pool c t) NDL Hin) as (rest & P1 & _).
-  pose proof (a_til c I) as T.
+  pose proof (a_til c I Hfu) as T.
   assert (P : Permutation (cov e (c_trace c) ++ helds e L (c_pool c))
                           ((b, k) :: (cov e (c_trace c) ++ acc_iv e (c_pool c t) ++ rest))).
   { rewrite P1, Hheld. rewrite <- !app_assoc. cbn [app].
@@ -777,146 +944,360 @@ Proof.
   rewrite !iv_maxhi_app in Hb. lia.
 Qed.
 
-Lemma iA_pub c t q b g :
-  IInvA c -> In t L -> t_pc (c_pool c t) = PPub q b g ->
-  s_y (c_sh c) + pub_incr q < W ->
-  IInvA (step e c t).
+(** ** what a pull that obtained elements delivers, for every wrapped iterator *)
+
+Lemma runs_of_nonnil i v vs : runs_of i (v :: vs) <> [].
 Proof.
-  intros I Hin Hpc Hw.
+  cbn [runs_of]. destruct (runs_of (i + 1) vs) as [|r rs]; [discriminate|]. destruct (r_val r =? v + 1); discriminate.
+Qed.
+
+Lemma runs_of_idx vs : forall i r, In r (runs_of i vs) -> r_idx r <> None.
+Proof.
+  induction vs as [|v vs IH]; intros i r; cbn [runs_of]; [intros []|].
+  destruct (runs_of (i + 1) vs) as [|r0 rs] eqn:E.
+  - intros [<-|[]]. discriminate.
+  - destruct (r_val r0 =? v + 1).
+    + intros [<-|H]; [discriminate|]. apply (IH (i + 1)). rewrite E. right. exact H.
+    + intros [<-|H]; [discriminate|]. apply (IH (i + 1)). rewrite E. exact H.
+Qed.
+
+Lemma runs_take_idx : forall rs k r, In r (runs_take k rs) -> exists r0, In r0 rs /\ r_idx r = r_idx r0.
+Proof.
+  induction rs as [|a rs IH]; intros k r; cbn [runs_take]; [intros []|].
+  destruct (k =? 0); [intros []|]. destruct (r_cnt a <=? k).
+  - intros [<-|H]; [exists a; split; [left; reflexivity|reflexivity]|].
+    destruct (IH _ _ H) as (r0 & H0 & E). exists r0. split; [right; exact H0|exact E].
+  - intros [<-|[]]. exists a. split; [left; reflexivity|reflexivity].
+Qed.
+
+Lemma loop_invoke_shape l crash done rs cnt :
+  (forall r, In r rs -> r_idx r <> None) ->
+  forallb (shape_ok l) (fst (loop_invoke l crash done rs cnt)) = true.
+Proof.
+  intros H. unfold loop_invoke.
+  assert (Hm : forall rs', (forall r, In r rs' -> r_idx r <> None) ->
+            forallb (shape_ok l) (map (match l with LEnum => fun r => r | _ => strip_idx end) rs') = true).
+  { intros rs' H'. apply forallb_forall. intros x Hx. apply in_map_iff in Hx. destruct Hx as (r & <- & Hr).
+    specialize (H' r Hr). unfold shape_ok. destruct l; cbn [strip_idx mk_run r_idx]; try reflexivity.
+    destruct (r_idx r); [reflexivity|contradiction]. }
+  destruct crash as [k|]; [|apply Hm; exact H].
+  destruct ((done <=? k) && (k <? done + cnt)); cbn [fst]; apply Hm; [|exact H].
+  intros r Hr. destruct (runs_take_idx _ _ _ Hr) as (r0 & H0 & E). rewrite E. apply H. exact H0.
+Qed.
+
+Lemma deliver_top_gen ts q b rs cnt :
+  rs <> [] ->
+  exists ts' r d, deliver_top e ts q b rs cnt = (ts', (r, d))
+    /\ t_pc ts' = PIdle /\ t_acc ts' = t_acc ts /\ t_todo ts' = t_todo ts
+    /\ (wf_buf (t_buf ts) -> wf_buf (t_buf ts'))
+    /\ (forall bf', t_buf ts' = Some bf' -> exists bf, t_buf ts = Some bf /\ bf_c bf' = bf_c bf)
+    /\ is_end r = false /\ is_panic r = false /\ len_answer r = None.
+Proof.
+  intros Hrs. unfold deliver_top. destruct (q_mode q) as [v|k|k].
+  - eexists _, _, _. split; [reflexivity|]. cbn [set_pc t_pc t_acc t_todo t_buf].
+    split; [reflexivity|]. split; [reflexivity|]. split; [reflexivity|]. split; [intros H; exact H|].
+    split; [intros bf' H; exists bf'; split; [exact H|reflexivity]|].
+    destruct rs as [|r0 rs0]; [contradiction Hrs; reflexivity|].
+    destruct (reports_idx v); cbn [map one_res is_end is_panic len_answer]; repeat split; reflexivity.
+  - eexists _, _, _. split; [reflexivity|]. cbn [set_pc t_pc t_acc t_todo t_buf].
+    split; [reflexivity|]. split; [reflexivity|]. split; [reflexivity|]. split; [intros H; exact H|].
+    split; [intros bf' H; exists bf'; split; [exact H|reflexivity]|]. repeat split; reflexivity.
+  - rewrite Hk. destruct (t_buf ts) as [bf|] eqn:Ebf.
+    + destruct (write_slots (bf_slots bf) (runs_vals rs)) as [sl stale].
+      eexists _, _, _. split; [reflexivity|]. cbn [t_pc t_acc t_todo t_buf].
+      split; [reflexivity|]. split; [reflexivity|]. split; [reflexivity|]. split; [intros H; exact H|].
+      split; [intros bf' H; injection H as <-; exists bf; split; reflexivity|]. repeat split; reflexivity.
+    + eexists _, _, _. split; [reflexivity|]. cbn [set_pc t_pc t_acc t_todo t_buf].
+      split; [reflexivity|]. split; [reflexivity|]. split; [reflexivity|].
+      split; [intros _; rewrite Ebf; exact I0|]. split; [intros bf' H; rewrite Ebf in H; discriminate H|].
+      repeat split; reflexivity.
+Qed.
+
+(** a direct pull delivers (to the caller, or in the chunk it returns) as many elements as it took *)
+Lemma deliver_top_total ts q b rs cnt ts' r d :
+  deliver_top e ts q b rs cnt = (ts', (r, d)) -> total_cnt rs = cnt ->
+  (forall v, q_mode q = MSingle v -> exists r0, rs = [r0]) ->
+  iv_total (res_cover e r) = cnt.
+Proof.
+  unfold deliver_top. intros E Ht H1.
+  assert (Hchunk : forall k, iv_total (res_cover e (chunk_res b rs cnt (N.min k cnt))) = cnt).
+  { intros k. unfold chunk_res. cbn [res_cover]. rewrite iv_total_app, iv_total_runs, total_cnt_take by lia.
+    cbn [iv_total snd]. lia. }
+  destruct (q_mode q) as [v|k|k].
+  - destruct (H1 v eq_refl) as (r0 & ->). injection E as _ <- _.
+    cbn [total_cnt] in Ht. destruct (reports_idx v); cbn [map one_res res_cover res_taken iv_total run_iv strip_idx mk_run r_cnt snd]; lia.
+  - injection E as _ <- _. apply Hchunk.
+  - rewrite Hk in E. destruct (t_buf ts) as [bf|].
+    + destruct (write_slots (bf_slots bf) (runs_vals rs)) as [sl stale]. injection E as _ <- _. apply Hchunk.
+    + injection E as _ <- _. apply Hchunk.
+Qed.
+
+(** the publishing step of every wrapped iterator: the pull reports the end when it took nothing, and
+    returns what it took otherwise *)
+Lemma pub_step c t q b g :
+  IInvA c -> t_pc (c_pool c t) = PPub q b g -> s_y (c_sh c) + pub_incr q < W ->
+  b = s_y (c_sh c) /\ wf_reqI q /\
+  step e c t = finish e c t (with_y (c_sh c) (b + q_n q)) (c_pool c t) (LAtom t SY AAdd (q_n q) b (o_pub q)) q
+                 (match g with [] => Ok PREnd | _ => Ok (PRGot b (runs_of b (rev g)) (N.of_nat (length g))) end).
+Proof.
+  intros I Hpc Hw.
+  destruct (ipc_req c t q I) as [Hq Hacc]; [rewrite Hpc; reflexivity|].
+  destruct (a_wf c I t) as (Hok & Hops & Hbuf). unfold ipc_ok in Hok. rewrite Hpc in Hok. destruct Hok as (_ & _ & Hgn & Hg1).
+  assert (Tt : ticket (pcs_of c t) = Some (b, pub_incr q)) by (unfold pcs_of; rewrite Hpc; reflexivity).
+  assert (Ct : in_crit (pcs_of c t) = true) by (unfold pcs_of; rewrite Hpc; reflexivity).
+  pose proof (p_crit _ _ _ _ _ (a_prot c I) t _ _ Ct Tt) as Hb.
+  split; [exact Hb|]. split; [exact Hq|].
+  unfold step. rewrite Hpc. rewrite (pub_incr_n q Hq). rewrite wadd_nowrap by (rewrite <- (pub_incr_n q Hq); assumption).
+  subst b. rewrite N.eqb_refl. rewrite rev_length.
+  destruct g as [|g0 g'].
+  - assert (Hm : forall v, q_mode q <> MSingle v) by (intros v Mv; specialize (Hg1 v Mv); discriminate Hg1).
+    cbn [rev]. destruct (q_mode q) eqn:M; [contradiction (Hm v); reflexivity|reflexivity|reflexivity].
+  - destruct (rev (g0 :: g')) as [|v vs] eqn:Er.
+    + exfalso. apply (f_equal (@length N)) in Er. rewrite rev_length in Er. discriminate Er.
+    + destruct (q_mode q); reflexivity.
+Qed.
+
+(** when the wrapped iterator is fused, what a pull took is the interval of positions that begins at its
+    ticket; it is shorter than the reservation only at the end of the source *)
+Lemma pub_fused c t q b g :
+  IInvA c -> fused e -> t_pc (c_pool c t) = PPub q b g -> g <> [] ->
+  runs_of b (rev g) = [mk_run (Some b) (val_of e b) (N.of_nat (length g))] /\
+  s_cur (c_sh c) = b + N.of_nat (length g) /\ b < e_len e /\
+  (N.of_nat (length g) < q_n q -> b + N.of_nat (length g) = e_len e).
+Proof.
+  intros I Hfu Hpc Hgne.
+  destruct (ipc_req c t q I) as [Hq Hacc]; [rewrite Hpc; reflexivity|].
+  assert (Tt : ticket (pcs_of c t) = Some (b, pub_incr q)) by (unfold pcs_of; rewrite Hpc; reflexivity).
+  assert (Ct : in_crit (pcs_of c t) = true) by (unfold pcs_of; rewrite Hpc; reflexivity).
+  pose proof (p_cur _ _ _ _ _ (a_prot c I)) as Hcl.
+  pose proof (a_protF c I Hfu) as PF.
+  pose proof (p_got _ _ _ _ _ PF t _ _ Ct Tt) as [Hasc Hcur]. unfold pcs_of in Hasc, Hcur. rewrite Hpc in Hasc, Hcur. cbn [got_of] in Hasc, Hcur.
+  pose proof (p_pub _ _ _ _ _ PF t q b g ltac:(unfold pcs_of; exact Hpc)) as Hfull. rewrite (pub_incr_n q Hq) in Hfull.
+  assert (exists k', length g = S k') as (k' & El) by (destruct g; [contradiction Hgne; reflexivity|cbn [length]; eauto]).
+  assert (Hc : s_cur (c_sh c) = b + N.of_nat (length g)) by (destruct Hcur as [H|[H _]]; [exact H|contradiction]).
+  split; [|split; [exact Hc|split; [rewrite El in *; lia|intros Hlt; destruct Hfull as [H|H]; lia]]].
+  rewrite Hasc, El. rewrite runs_of_asc, val_of_iter. reflexivity.
+Qed.
+
+(** what the publishing step of every wrapped iterator delivers: the positions [p, p + cnt) the wrapped
+    iterator yielded to this pull, under the index [b] of its ticket *)
+Lemma pub_gen c t q b g :
+  IInvA c -> t_pc (c_pool c t) = PPub q b g -> s_y (c_sh c) + pub_incr q < W ->
+  b = s_y (c_sh c) /\ wf_reqI q /\
+  ((g = [] /\
+    step e c t = finish e c t (with_y (c_sh c) (b + q_n q)) (c_pool c t) (LAtom t SY AAdd (q_n q) b (o_pub q)) q (Ok PREnd))
+   \/
+   (exists cnt p, cnt = N.of_nat (length g) /\ 1 <= cnt /\ cnt <= q_n q /\ p + cnt = s_cur (c_sh c) /\ p < e_len e /\
+      rev g = ascN p (length g) /\ (forall v, q_mode q = MSingle v -> cnt = 1) /\
+      step e c t = finish e c t (with_y (c_sh c) (b + q_n q)) (c_pool c t) (LAtom t SY AAdd (q_n q) b (o_pub q)) q
+                          (Ok (PRGot b [mk_run (Some b) (val_of e p) cnt] cnt)))).
+Proof.
+  intros I Hpc Hw.
+  destruct (pub_step c t q b g I Hpc Hw) as (Hb & Hq & Est).
+  destruct (a_wf c I t) as (Hok & Hops & Hbuf). unfold ipc_ok in Hok. rewrite Hpc in Hok. destruct Hok as (_ & _ & Hgn & Hg1).
+  assert (Ct : in_crit (pcs_of c t) = true) by (unfold pcs_of; rewrite Hpc; reflexivity).
+  pose proof (p_gotv _ _ _ _ _ (a_prot c I) t Ct) as [Hasc Hle]. unfold pcs_of in Hasc, Hle. rewrite Hpc in Hasc, Hle. cbn [got_of] in Hasc, Hle.
+  pose proof (p_cur _ _ _ _ _ (a_prot c I)) as Hcl.
+  split; [exact Hb|]. split; [exact Hq|].
+  destruct g as [|g0 g']; [left; split; [reflexivity|exact Est]|right].
+  assert (El : length (g0 :: g') = S (length g')) by reflexivity.
+  exists (N.of_nat (length (g0 :: g'))), (s_cur (c_sh c) - N.of_nat (length (g0 :: g'))).
+  split; [reflexivity|]. split; [rewrite El; lia|]. split; [exact Hgn|]. split; [lia|]. split; [rewrite El in *; lia|].
+  split; [exact Hasc|]. split; [intros v Mv; rewrite (Hg1 v Mv); reflexivity|].
+  rewrite Est. cbv iota. rewrite Hasc, El, runs_of_asc, val_of_iter. reflexivity.
+Qed.
+
+Lemma iA_got c t q b g l :
+  IInvA c -> In t L -> t_pc (c_pool c t) = PPub q b g -> g <> [] ->
+  s_y (c_sh c) + pub_incr q < W -> b = s_y (c_sh c) ->
+  IInvA (finish e c t (with_y (c_sh c) (b + q_n q)) (c_pool c t) l q
+           (Ok (PRGot b (runs_of b (rev g)) (N.of_nat (length g))))).
+Proof.
+  intros I Hin Hpc Hgne Hw Hb.
   destruct (ipc_req c t q I) as [Hq Hacc]; [rewrite Hpc; reflexivity|].
   destruct (a_wf c I t) as (Hok & Hops & Hbuf). unfold ipc_ok in Hok. rewrite Hpc in Hok. destruct Hok as (_ & _ & Hgn & Hg1).
   assert (Hni : is_idle (c_pool c t) = false) by (unfold is_idle; rewrite Hpc; reflexivity).
   assert (Tt : ticket (pcs_of c t) = Some (b, pub_incr q)) by (unfold pcs_of; rewrite Hpc; reflexivity).
   assert (Ct : in_crit (pcs_of c t) = true) by (unfold pcs_of; rewrite Hpc; reflexivity).
   pose proof (a_prot c I) as P.
-  pose proof (p_crit _ _ _ _ _ P t _ _ Ct Tt) as Hb.
-  pose proof (p_got _ _ _ _ _ P t _ _ Ct Tt) as [Hasc Hcur]. unfold pcs_of in Hasc, Hcur. rewrite Hpc in Hasc, Hcur. cbn [got_of] in Hasc, Hcur.
   pose proof (p_cur _ _ _ _ _ P) as Hcl.
-  pose proof (p_pub _ _ _ _ _ P t q b g ltac:(unfold pcs_of; exact Hpc)) as Hfull.
   rewrite (pub_incr_n q Hq) in *.
   assert (Hheld : held e (c_pool c t) = acc_iv e (c_pool c t) ++ [(b, N.of_nat (length g))]) by (unfold held; rewrite Hpc; reflexivity).
   assert (Hprot : forall x, ticket x = None -> in_crit x = false -> (forall q b g, x <> PPub q b g) -> (forall q b g, x <> PSetF q b g) ->
             Prot (e_len e) (s_c (c_sh c)) (s_y (c_sh c) + q_n q) (s_cur (c_sh c)) (upd (pcs_of c) t x)).
   { intros x Tx Cx N1 N2. rewrite <- (pub_incr_n q Hq). eapply prot_publish; try eassumption; unfold pcs_of; exact Hpc. }
-  unfold step. rewrite Hpc. rewrite (pub_incr_n q Hq). rewrite wadd_nowrap by assumption.
-  rewrite Hasc. subst b. rewrite N.eqb_refl.
+  assert (HprotF : fused e -> forall x, ticket x = None -> in_crit x = false -> (forall q b g, x <> PPub q b g) -> (forall q b g, x <> PSetF q b g) ->
+            ProtF (e_len e) (s_c (c_sh c)) (s_y (c_sh c) + q_n q) (s_cur (c_sh c)) (upd (pcs_of c) t x)).
+  { intros Hfu x Tx Cx N1 N2. rewrite <- (pub_incr_n q Hq). eapply protF_publish; try eassumption; try (apply (a_protF c I Hfu)); try (unfold pcs_of; exact Hpc). }
+  set (rs := runs_of b (rev g)). set (cnt := N.of_nat (length g)).
+  assert (Hk1 : 1 <= cnt) by (unfold cnt; destruct g; [contradiction Hgne; reflexivity|cbn [length]; lia]).
+  assert (Hrsn : rs <> []).
+  { unfold rs. destruct (rev g) as [|v vs] eqn:Er; [|apply runs_of_nonnil].
+    exfalso. apply Hgne. rewrite <- (rev_involutive g), Er. reflexivity. }
+  assert (Hidx : forall r, In r rs -> r_idx r <> None) by (intros r; apply runs_of_idx).
+  assert (Hrst : total_cnt rs = cnt) by (unfold rs, cnt; rewrite total_cnt_runs_of, rev_length; reflexivity).
+  (* when the wrapped iterator is fused: the positions are the indices *)
+  assert (HF : fused e -> rs = [mk_run (Some b) (val_of e b) cnt] /\ s_cur (c_sh c) = b + cnt /\ b < e_len e /\
+                          (cnt < q_n q -> b + cnt = e_len e)).
+  { intros Hfu. pose proof (a_protF c I Hfu) as PF.
+    pose proof (p_got _ _ _ _ _ PF t _ _ Ct Tt) as [Hasc Hcur]. unfold pcs_of in Hasc, Hcur. rewrite Hpc in Hasc, Hcur. cbn [got_of] in Hasc, Hcur.
+    pose proof (p_pub _ _ _ _ _ PF t q b g ltac:(unfold pcs_of; exact Hpc)) as Hfull. rewrite (pub_incr_n q Hq) in Hfull.
+    assert (Hc : s_cur (c_sh c) = b + cnt) by (destruct Hcur as [H|[H _]]; [exact H|contradiction]).
+    split; [|split; [exact Hc|split; [unfold cnt in *; lia|intros Hlt; destruct Hfull as [H|H]; unfold cnt in *; lia]]].
+    unfold rs. rewrite Hasc.
+    assert (exists k', length g = S k') as (k' & El) by (destruct g; [contradiction Hgne; reflexivity|cbn [length]; eauto]).
+    rewrite El. rewrite runs_of_asc, val_of_iter. unfold cnt. rewrite El. reflexivity. }
+  pose proof (a_call c I t) as Hcall. unfold icall_ok in Hcall. rewrite Hni in Hcall. destruct Hcall as (o & older & Hpend & Hres).
+  pose proof (a_shape c I t) as Hsh0. unfold ishape_ok in Hsh0. rewrite Hpend in Hsh0.
+  pose proof (pend_suffix _ _ _ _ Hpend) as Hsuf.
+  unfold finish, deliver. destruct (q_ctx q) as [|lk crash] eqn:Ctx.
+  - (* directly *)
+    specialize (Hacc eq_refl).
+    destruct (deliver_top_gen (c_pool c t) q b rs cnt Hrsn) as (ts' & r & d & Ed & Hp' & Ha' & Ht' & Hb' & Hbc' & Hne & Hnp & Hla).
+    rewrite Ed. cbn [ret_ev]. apply iA_commit; try assumption.
+    + repeat constructor.
+    + unfold ipc_ok. rewrite Hp', Ha'. exact Hacc.
+    + rewrite Ht'. exact Hops.
+    + apply Hb'. exact Hbuf.
+    + unfold icall_ok, is_idle. rewrite Hp'. cbn [app]. apply pend_call_self_ret.
+    + cbn [app]. rewrite n_pending_ret. unfold pendZ. rewrite Hni. unfold is_idle. rewrite Hp'. lia.
+    + cbn [with_y s_c s_y s_cur]. rewrite Hp', Hb. apply Hprot; try reflexivity; discriminate.
+    + intros Hfu. cbn [with_y s_c s_y s_cur]. rewrite Hp', Hb. apply (HprotF Hfu); try reflexivity; discriminate.
+    + intros Hfu. destruct (HF Hfu) as (Hrs & Hc & P1 & P7).
+      assert (P4 : forall v, q_mode q = MSingle v -> cnt = 1) by (intros v Mv; specialize (Hg1 v Mv); unfold cnt; rewrite Hg1; reflexivity).
+      assert (P5 : cnt <= q_n q) by (unfold cnt; exact Hgn).
+      assert (P6 : b + cnt <= e_len e) by lia.
+      destruct (deliver_top_iter (c_pool c t) q b cnt P1 Hk1 Hq P4 P5 P6 P7)
+        as (ts2 & r2 & d2 & E2 & _ & _ & _ & _ & _ & _ & _ & _ & _ & _ & took & Htk & Hcov).
+      rewrite Hrs in Ed. rewrite Ed in E2. injection E2 as <- <- <-.
+      cbn [app cov with_y s_cur]. rewrite npanic_ret, Hnp, Hcov. cbn [negb andb].
+      eapply htil_gen; [exact Hin| |apply (a_til c I Hfu)]. intros rest T.
+      rewrite Hheld in T. unfold acc_iv in T. rewrite Hacc in T. cbn [map app] in T.
+      assert (held e ts' = []) as -> by (unfold held, acc_iv; rewrite Hp', Ha', Hacc; reflexivity).
+      rewrite app_nil_r. apply tiling_split_form; assumption.
+    + cbn [app]. intros bf' Hbf'. rewrite buf_size_ret. destruct (Hbc' bf' Hbf') as (bf & Hbf & Ec). rewrite Ec. apply (a_buf c I). assumption.
+    + intros Hfu. unfold iacc_ok. cbn [app]. rewrite pend_call_self_ret. exact I0.
+    + unfold ishape_ok. cbn [app]. rewrite pend_call_self_ret. exact I0.
+    + assert (Htot : iv_total (res_cover e r) = cnt).
+      { apply (deliver_top_total _ _ _ _ _ _ _ _ Ed); [exact Hrst|].
+        intros v Mv. specialize (Hg1 v Mv). unfold rs. destruct g as [|x [|y g']]; try discriminate Hg1.
+        cbn [rev app runs_of]. eexists. reflexivity. }
+      cbn [app cov with_y s_cur].
+      apply hcnt_step with (cl := npanic (c_trace c)) (n := s_cur (c_sh c)); [exact Hin| | |apply (a_cnt c I)].
+      * intros C. eapply npanic_cons. exact C.
+      * intros _. rewrite Htot, Hheld, iv_total_app. unfold held, acc_iv. rewrite Hp', Ha', Hacc. cbn [map app iv_total snd]. lia.
+  - (* inside a loop *)
+    unfold deliver_loop.
+    pose proof (loop_invoke_shape lk crash (total_cnt (t_acc (c_pool c t))) rs cnt Hidx) as Hi2g.
+    destruct (loop_invoke lk crash (total_cnt (t_acc (c_pool c t))) rs cnt) as [inv pan] eqn:Eli. cbn [fst] in Hi2g.
+    (* the same under the fused hypothesis, with the facts of the known-size layer *)
+    assert (HFl : fused e -> forallb (run_idx_ok e) inv = true /\
+              match pan with
+              | None => map (run_iv e) inv = [(b, cnt)]
+              | Some used => 1 <= used /\ used <= cnt /\ map (run_iv e) inv = [(b, used)]
+              end).
+    { intros Hfu. destruct (HF Hfu) as (Hrs & Hc & P1 & P7).
+      destruct (loop_invoke_cases e lk crash (total_cnt (t_acc (c_pool c t))) b cnt P1 Hk1) as (inv2 & pan2 & E2 & Hi1 & _ & Hinv).
+      rewrite Hrs in Eli. rewrite Eli in E2. injection E2 as <- <-. split; assumption. }
+    destruct pan as [used|].
+    + (* the closure panics: the loop returns *)
+      cbn [ret_ev]. apply iA_commit; try assumption.
+      * repeat constructor.
+      * unfold ipc_ok. cbn [t_pc t_acc]. reflexivity.
+      * unfold icall_ok, is_idle. cbn [t_pc app]. apply pend_call_self_ret.
+      * cbn [app]. rewrite n_pending_ret. unfold pendZ. rewrite Hni. unfold is_idle. cbn [t_pc]. lia.
+      * cbn [with_y s_c s_y s_cur t_pc]. rewrite Hb. apply Hprot; try reflexivity; discriminate.
+      * intros Hfu. cbn [with_y s_c s_y s_cur t_pc]. rewrite Hb. apply (HprotF Hfu); try reflexivity; discriminate.
+      * intros Hfu. destruct (HFl Hfu) as (Hi1 & Hu1 & Hu2 & Hinv).
+        cbn [app cov res_cover res_taken with_y s_cur]. rewrite npanic_ret. cbn [is_panic negb andb].
+        eapply htil_gen; [exact Hin| |apply (a_til c I Hfu)]. intros rest T.
+        rewrite Hheld in T. apply tiling_unclean in T.
+        assert (held e {| t_pc := PIdle; t_todo := t_todo (c_pool c t); t_buf := t_buf (c_pool c t); t_acc := [] |} = []) as -> by reflexivity.
+        rewrite app_nil_r.
+        pose proof (tiling_perm _ _ _ _ (perm_snoc_front _ _ _) T) as T1.
+        fold cnt in T1. replace cnt with (used + (cnt - used)) in T1 by lia. apply tiling_split in T1.
+        pose proof (tiling_perm _ _ _ _ (perm_swap _ _ _) T1) as T2. apply tiling_drop_head in T2.
+        eapply tiling_perm; [|exact T2].
+        rewrite rev_app_distr, rev_involutive, map_app, Hinv. unfold acc_iv. rewrite map_rev.
+        rewrite <- app_assoc. cbn [app]. rewrite <- Permutation_rev. apply Permutation_middle.
+      * cbn [app t_buf]. intros bf Hbf. rewrite buf_size_ret. apply (a_buf c I). assumption.
+      * intros Hfu. unfold iacc_ok. cbn [app]. rewrite pend_call_self_ret. exact I0.
+      * unfold ishape_ok. cbn [app]. rewrite pend_call_self_ret. exact I0.
+      * cbn [app]. unfold counting. rewrite npanic_ret. cbn [is_panic negb andb]. discriminate.
+    + (* the loop goes on *)
+      cbn [ret_ev]. apply iA_commit; try assumption.
+      * constructor.
+      * unfold ipc_ok. cbn [t_pc t_acc]. split; [assumption|]. rewrite Ctx. discriminate.
+      * unfold icall_ok, is_idle. cbn [t_pc app]. exists o, older. split; [assumption|].
+        rewrite Hpc in Hres. unfold entry_of in *. cbn [req_of] in *. eapply call_res_buf; [|exact Hres]. reflexivity.
+      * cbn [app]. unfold pendZ. rewrite Hni. unfold is_idle. cbn [t_pc]. lia.
+      * cbn [with_y s_c s_y s_cur t_pc]. rewrite Hb. apply Hprot; try reflexivity; discriminate.
+      * intros Hfu. cbn [with_y s_c s_y s_cur t_pc]. rewrite Hb. apply (HprotF Hfu); try reflexivity; discriminate.
+      * intros Hfu. destruct (HFl Hfu) as (Hi1 & Hinv).
+        assert (Hinv1 : exists i0, inv = [i0] /\ run_iv e i0 = (b, cnt)).
+        { destruct inv as [|i0 [|]]; try discriminate Hinv. exists i0. split; [reflexivity|]. cbn [map] in Hinv. congruence. }
+        destruct Hinv1 as (i0 & -> & Hi0).
+        cbn [app with_y s_cur]. change (cov e (c_trace c)) with ([] ++ cov e (c_trace c)).
+        eapply htil_gen; [exact Hin| |apply (a_til c I Hfu)]. intros rest T. cbn [app].
+        rewrite Hheld in T.
+        assert (held e {| t_pc := PRes q; t_todo := t_todo (c_pool c t); t_buf := t_buf (c_pool c t); t_acc := rev [i0] ++ t_acc (c_pool c t) |}
+                = (b, cnt) :: acc_iv e (c_pool c t)) as ->.
+        { unfold held, acc_iv. cbn [t_pc t_acc rev app map]. rewrite Hi0, app_nil_r. reflexivity. }
+        eapply tiling_perm; [|exact T]. apply perm_snoc_front.
+      * cbn [app t_buf]. apply (a_buf c I).
+      * intros Hfu. destruct (HFl Hfu) as (Hi1 & Hinv). destruct (HF Hfu) as (Hrs & Hc & P1 & P7).
+        assert (Hinv1 : exists i0, inv = [i0] /\ run_iv e i0 = (b, cnt)).
+        { destruct inv as [|i0 [|]]; try discriminate Hinv. exists i0. split; [reflexivity|]. cbn [map] in Hinv. congruence. }
+        destruct Hinv1 as (i0 & -> & Hi0).
+        destruct (top_below c t b cnt I Hfu Hin Hheld ltac:(lia) Hk1) as [Hbc Hba].
+        pose proof (a_acc c I Hfu t) as Ha. unfold iacc_ok in Ha. rewrite Hpend in Ha. destruct Ha as (Ha1 & Ha2 & Ha3 & Ha4).
+        unfold iacc_ok. cbn [app]. rewrite Hpend. cbn [t_acc rev app]. unfold acc_iv. cbn [t_acc map rev app forallb].
+        cbn [forallb] in Hi1, Hi2g. rewrite andb_true_r in Hi1, Hi2g. rewrite Hi0.
+        split; [rewrite Hi1; assumption|]. split.
+        { intros l0 c0 cr0 E. rewrite Hpc in Hres. unfold entry_of in Hres. cbn [req_of] in Hres.
+          destruct (loop_ops_iter _ _ _ _ _ Hres Ctx) as (cc & Eo & _). rewrite Eo in E. injection E as <- <- <-.
+          rewrite Hi2g. apply (Ha2 lk cc crash Eo). }
+        split; [apply increasing_snoc; [assumption|]; cbn [fst];
+                rewrite (iv_maxhi_perm _ _ (Permutation_sym (Permutation_rev _))); unfold acc_iv in Hba; lia|].
+        cbn [all_above forallb fst snd]. fold (all_above (iv_maxhi (cov e older)) (map (run_iv e) (t_acc (c_pool c t)))).
+        unfold acc_iv in Ha4. rewrite Ha4, andb_true_r. apply orb_true_iff. right. apply N.leb_le.
+        pose proof (cov_suffix_maxhi e _ _ Hsuf). lia.
+      * unfold ishape_ok. cbn [app]. rewrite Hpend. cbn [t_acc]. intros l0 c0 cr0 E.
+        rewrite Hpc in Hres. unfold entry_of in Hres. cbn [req_of] in Hres.
+        destruct (loop_ops_iter _ _ _ _ _ Hres Ctx) as (cc & Eo & _). rewrite Eo in E. injection E as <- <- <-.
+        rewrite forallb_app, forallb_rev, Hi2g. cbn [andb]. apply (Hsh0 lk cc crash Eo).
+      * pose proof (loop_invoke_total _ _ _ _ _ _ Eli) as Hti. rewrite Hrst in Hti.
+        cbn [app with_y s_cur]. change (cov e (c_trace c)) with ([] ++ cov e (c_trace c)).
+        apply hcnt_step with (cl := npanic (c_trace c)) (n := s_cur (c_sh c)); [exact Hin|intros C; exact C| |apply (a_cnt c I)].
+        intros _. rewrite Hheld, iv_total_app. unfold held, acc_iv. cbn [t_pc t_acc map app iv_total snd].
+        rewrite app_nil_r, map_app, iv_total_app, map_rev, (iv_total_perm _ _ (Permutation_sym (Permutation_rev _))), Hti.
+        fold cnt. lia.
+Qed.
+
+Lemma iA_pub c t q b g :
+  IInvA c -> In t L -> t_pc (c_pool c t) = PPub q b g ->
+  s_y (c_sh c) + pub_incr q < W ->
+  IInvA (step e c t).
+Proof.
+  intros I Hin Hpc Hw.
+  destruct (pub_step c t q b g I Hpc Hw) as (Hb & Hq & ->).
   destruct g as [|g0 g'].
-  - (* nothing was taken: the pull reports the end *)
-    assert (Hm : forall v, q_mode q <> MSingle v) by (intros v Mv; specialize (Hg1 v Mv); discriminate Hg1).
-    cbn [length ascN].
-    assert (Hend : IInvA (finish e c t (with_y (c_sh c) (s_y (c_sh c) + q_n q)) (c_pool c t)
-                            (LAtom t SY AAdd (q_n q) (s_y (c_sh c)) (o_pub q)) q (Ok PREnd))).
-    { apply iA_finish_end with (X := [(s_y (c_sh c), N.of_nat 0)]); try assumption.
-      - rewrite Hpc. reflexivity.
-      - intros a [<-|[]]. reflexivity.
-      - reflexivity. }
-    destruct (q_mode q) eqn:M; [contradiction (Hm v); reflexivity|exact Hend|exact Hend].
-  - (* elements were taken *)
-    set (k := length (g0 :: g')) in *. assert (Hk1 : 1 <= N.of_nat k) by (unfold k; cbn [length]; lia).
-    assert (Hkk : exists k', k = S k') by (unfold k; cbn [length]; eauto). destruct Hkk as (k' & Ek).
-    assert (Hc : s_cur (c_sh c) = s_y (c_sh c) + N.of_nat k) by (destruct Hcur as [H|[H _]]; [exact H|discriminate H]).
-    set (b := s_y (c_sh c)) in *. set (cnt := N.of_nat k) in *.
-    assert (Hruns : runs_of b (ascN b k) = [mk_run (Some b) (val_of e b) cnt]).
-    { rewrite Ek. rewrite runs_of_asc, val_of_iter. unfold cnt. rewrite Ek. reflexivity. }
-    assert (Hlen : N.of_nat (length (ascN b k)) = cnt) by (rewrite ascN_length; reflexivity).
-    assert (Hgoal : IInvA (finish e c t (with_y (c_sh c) (b + q_n q)) (c_pool c t) (LAtom t SY AAdd (q_n q) b (o_pub q)) q
-                             (Ok (PRGot b [mk_run (Some b) (val_of e b) cnt] cnt)))).
-    { destruct (top_below c t b cnt I Hin Hheld ltac:(lia) Hk1) as [Hbc Hba].
-      pose proof (a_call c I t) as Hcall. unfold icall_ok in Hcall. rewrite Hni in Hcall. destruct Hcall as (o & older & Hpend & Hres).
-      pose proof (a_acc c I t) as Ha. unfold iacc_ok in Ha. rewrite Hpend in Ha. destruct Ha as (Ha1 & Ha2 & Ha3 & Ha4).
-      pose proof (pend_suffix _ _ _ _ Hpend) as Hsuf.
-      unfold finish, deliver. destruct (q_ctx q) as [|lk crash] eqn:Ctx.
-      - (* directly *)
-        specialize (Hacc eq_refl).
-        assert (P1 : b < e_len e) by (unfold cnt in *; lia).
-        assert (P4 : forall v, q_mode q = MSingle v -> cnt = 1) by (intros v Mv; specialize (Hg1 v Mv); unfold cnt; rewrite Hg1; reflexivity).
-        assert (P5 : cnt <= q_n q) by (unfold cnt; exact Hgn).
-        assert (P6 : b + cnt <= e_len e) by (unfold cnt in *; lia).
-        assert (P7 : cnt < q_n q -> b + cnt = e_len e) by (intros Hlt; destruct Hfull as [H|H]; unfold cnt in *; lia).
-        destruct (deliver_top_iter (c_pool c t) q b cnt P1 Hk1 Hq P4 P5 P6 P7)
-          as (ts' & r & d & -> & Hp' & Ha' & Ht' & Hb' & Hbc' & Hne & Hnp & Hla & Hidx & Hchk & took & Htk & Hcov).
-        cbn [ret_ev]. apply iA_commit; try assumption.
-        + repeat constructor.
-        + unfold ipc_ok. rewrite Hp', Ha'. exact Hacc.
-        + rewrite Ht'. exact Hops.
-        + apply Hb'. exact Hbuf.
-        + unfold icall_ok, is_idle. rewrite Hp'. cbn [app]. apply pend_call_self_ret.
-        + cbn [app]. rewrite n_pending_ret. unfold pendZ. rewrite Hni. unfold is_idle. rewrite Hp'. lia.
-        + cbn [with_y s_c s_y s_cur]. rewrite Hp'. apply Hprot; try reflexivity; discriminate.
-        + cbn [app cov with_y s_cur]. rewrite npanic_ret, Hnp, Hcov. cbn [negb andb].
-          eapply htil_gen; [exact Hin| |apply (a_til c I)]. intros rest T.
-          rewrite Hheld in T. unfold acc_iv in T. rewrite Hacc in T. cbn [map app] in T.
-          assert (held e ts' = []) as -> by (unfold held, acc_iv; rewrite Hp', Ha', Hacc; reflexivity).
-          rewrite app_nil_r. apply tiling_split_form; assumption.
-        + cbn [app]. intros bf' Hbf'. rewrite buf_size_ret. destruct (Hbc' bf' Hbf') as (bf & Hbf & Ec). rewrite Ec. apply (a_buf c I). assumption.
-        + unfold iacc_ok. cbn [app]. rewrite pend_call_self_ret. exact I0.
-      - (* inside a loop *)
-        unfold deliver_loop.
-        destruct (loop_invoke_cases e lk crash (total_cnt (t_acc (c_pool c t))) b cnt ltac:(lia) Hk1) as (inv & pan & -> & Hi1 & Hi2 & Hinv).
-        destruct pan as [used|].
-        + (* the closure panics: the loop returns *)
-          destruct Hinv as (Hu1 & Hu2 & Hinv).
-          cbn [ret_ev]. apply iA_commit; try assumption.
-          * repeat constructor.
-          * unfold ipc_ok. cbn [t_pc t_acc]. reflexivity.
-          * unfold icall_ok, is_idle. cbn [t_pc app]. apply pend_call_self_ret.
-          * cbn [app]. rewrite n_pending_ret. unfold pendZ. rewrite Hni. unfold is_idle. cbn [t_pc]. lia.
-          * cbn [with_y s_c s_y s_cur t_pc]. apply Hprot; try reflexivity; discriminate.
-          * cbn [app cov res_cover res_taken with_y s_cur]. rewrite npanic_ret. cbn [is_panic negb andb].
-            eapply htil_gen; [exact Hin| |apply (a_til c I)]. intros rest T.
-            rewrite Hheld in T. apply tiling_unclean in T.
-            assert (held e {| t_pc := PIdle; t_todo := t_todo (c_pool c t); t_buf := t_buf (c_pool c t); t_acc := [] |} = []) as -> by reflexivity.
-            rewrite app_nil_r.
-            pose proof (tiling_perm _ _ _ _ (perm_snoc_front _ _ _) T) as T1.
-            replace cnt with (used + (cnt - used)) in T1 by lia. apply tiling_split in T1.
-            pose proof (tiling_perm _ _ _ _ (perm_swap _ _ _) T1) as T2. apply tiling_drop_head in T2.
-            eapply tiling_perm; [|exact T2].
-            rewrite rev_app_distr, rev_involutive, map_app, Hinv. unfold acc_iv. rewrite map_rev.
-            rewrite <- app_assoc. cbn [app]. rewrite <- Permutation_rev. apply Permutation_middle.
-          * cbn [app t_buf]. intros bf Hbf. rewrite buf_size_ret. apply (a_buf c I). assumption.
-          * unfold iacc_ok. cbn [app]. rewrite pend_call_self_ret. exact I0.
-        + (* the loop goes on *)
-          assert (Hinv1 : exists i0, inv = [i0] /\ run_iv e i0 = (b, cnt)).
-          { destruct inv as [|i0 [|]]; try discriminate Hinv. exists i0. split; [reflexivity|]. cbn [map] in Hinv. congruence. }
-          destruct Hinv1 as (i0 & -> & Hi0).
-          cbn [ret_ev]. apply iA_commit; try assumption.
-          * constructor.
-          * unfold ipc_ok. cbn [t_pc t_acc]. split; [assumption|]. rewrite Ctx. discriminate.
-          * unfold icall_ok, is_idle. cbn [t_pc app]. exists o, older. split; [assumption|].
-            rewrite Hpc in Hres. unfold entry_of in *. cbn [req_of] in *. eapply call_res_buf; [|exact Hres]. reflexivity.
-          * cbn [app]. unfold pendZ. rewrite Hni. unfold is_idle. cbn [t_pc]. lia.
-          * cbn [with_y s_c s_y s_cur t_pc]. apply Hprot; try reflexivity; discriminate.
-          * cbn [app with_y s_cur]. change (cov e (c_trace c)) with ([] ++ cov e (c_trace c)).
-            eapply htil_gen; [exact Hin| |apply (a_til c I)]. intros rest T. cbn [app].
-            rewrite Hheld in T.
-            assert (held e {| t_pc := PRes q; t_todo := t_todo (c_pool c t); t_buf := t_buf (c_pool c t); t_acc := rev [i0] ++ t_acc (c_pool c t) |}
-                    = (b, cnt) :: acc_iv e (c_pool c t)) as ->.
-            { unfold held, acc_iv. cbn [t_pc t_acc rev app map]. rewrite Hi0, app_nil_r. reflexivity. }
-            eapply tiling_perm; [|exact T]. apply perm_snoc_front.
-          * cbn [app t_buf]. apply (a_buf c I).
-          * unfold iacc_ok. cbn [app]. rewrite Hpend. cbn [t_acc rev app]. unfold acc_iv. cbn [t_acc map rev app forallb].
-            cbn [forallb] in Hi1, Hi2. rewrite andb_true_r in Hi1, Hi2. rewrite Hi0.
-            split; [rewrite Hi1; assumption|]. split.
-            { intros l0 c0 cr0 E. rewrite Hpc in Hres. unfold entry_of in Hres. cbn [req_of] in Hres.
-              destruct (loop_ops_iter _ _ _ _ _ Hres Ctx) as (cc & Eo & _). rewrite Eo in E. injection E as <- <- <-.
-              rewrite Hi2. apply (Ha2 lk cc crash Eo). }
-            split; [apply increasing_snoc; [assumption|]; cbn [fst];
-                    rewrite (iv_maxhi_perm _ _ (Permutation_sym (Permutation_rev _))); unfold acc_iv in Hba; lia|].
-            cbn [all_above forallb fst snd]. fold (all_above (iv_maxhi (cov e older)) (map (run_iv e) (t_acc (c_pool c t)))).
-            unfold acc_iv in Ha4. rewrite Ha4, andb_true_r. apply orb_true_iff. right. apply N.leb_le.
-            pose proof (cov_suffix_maxhi e _ _ Hsuf). lia. }
-    rewrite Hruns, Hlen.
-    assert (Hvs : match ascN b k with [] => finish e c t (with_y (c_sh c) (b + q_n q)) (c_pool c t) (LAtom t SY AAdd (q_n q) b (o_pub q)) q (Ok PREnd)
-                  | _ :: _ => finish e c t (with_y (c_sh c) (b + q_n q)) (c_pool c t) (LAtom t SY AAdd (q_n q) b (o_pub q)) q
-                                (Ok (PRGot b [mk_run (Some b) (val_of e b) cnt] cnt)) end
-                  = finish e c t (with_y (c_sh c) (b + q_n q)) (c_pool c t) (LAtom t SY AAdd (q_n q) b (o_pub q)) q
-                                (Ok (PRGot b [mk_run (Some b) (val_of e b) cnt] cnt))) by (rewrite Ek; reflexivity).
-    destruct (q_mode q); [exact Hgoal|rewrite Hvs; exact Hgoal|rewrite Hvs; exact Hgoal].
+  - assert (Tt : ticket (pcs_of c t) = Some (b, pub_incr q)) by (unfold pcs_of; rewrite Hpc; reflexivity).
+    apply iA_finish_end with (X := [(b, N.of_nat 0)]); try assumption.
+    + rewrite Hpc. reflexivity.
+    + unfold held. rewrite Hpc. reflexivity.
+    + intros a [<-|[]]. reflexivity.
+    + reflexivity.
+    + intros x Tx Cx N1 N2. cbn [with_y s_c s_y s_cur]. rewrite Hb, <- (pub_incr_n q Hq).
+      eapply prot_publish; try eassumption; try (apply (a_prot c I)); try (unfold pcs_of; exact Hpc).
+    + intros Hfu x Tx Cx N1 N2. cbn [with_y s_c s_y s_cur]. rewrite Hb, <- (pub_incr_n q Hq).
+      eapply protF_publish; try eassumption; try (apply (a_prot c I)); try (apply (a_protF c I Hfu)); try (unfold pcs_of; exact Hpc).
+  - apply iA_got; try assumption. discriminate.
 Qed.
 
 (** what the publishing step does, for the layers above *)
 Lemma pub_eq c t q b g :
-  IInvA c -> t_pc (c_pool c t) = PPub q b g -> s_y (c_sh c) + pub_incr q < W ->
+  IInvA c -> fused e -> t_pc (c_pool c t) = PPub q b g -> s_y (c_sh c) + pub_incr q < W ->
   b = s_y (c_sh c) /\ wf_reqI q /\
   ((g = [] /\ s_cur (c_sh c) = e_len e /\
     step e c t = finish e c t (with_y (c_sh c) (b + q_n q)) (c_pool c t) (LAtom t SY AAdd (q_n q) b (o_pub q)) q (Ok PREnd))
@@ -926,16 +1307,16 @@ Lemma pub_eq c t q b g :
       step e c t = finish e c t (with_y (c_sh c) (b + q_n q)) (c_pool c t) (LAtom t SY AAdd (q_n q) b (o_pub q)) q
                           (Ok (PRGot b [mk_run (Some b) (val_of e b) cnt] cnt)))).
 Proof.
-  intros I Hpc Hw.
+  intros I Hfu Hpc Hw.
   destruct (ipc_req c t q I) as [Hq Hacc]; [rewrite Hpc; reflexivity|].
   destruct (a_wf c I t) as (Hok & Hops & Hbuf). unfold ipc_ok in Hok. rewrite Hpc in Hok. destruct Hok as (_ & _ & Hgn & Hg1).
   assert (Tt : ticket (pcs_of c t) = Some (b, pub_incr q)) by (unfold pcs_of; rewrite Hpc; reflexivity).
   assert (Ct : in_crit (pcs_of c t) = true) by (unfold pcs_of; rewrite Hpc; reflexivity).
   pose proof (a_prot c I) as P.
   pose proof (p_crit _ _ _ _ _ P t _ _ Ct Tt) as Hb.
-  pose proof (p_got _ _ _ _ _ P t _ _ Ct Tt) as [Hasc Hcur]. unfold pcs_of in Hasc, Hcur. rewrite Hpc in Hasc, Hcur. cbn [got_of] in Hasc, Hcur.
+  pose proof (p_got _ _ _ _ _ (a_protF c I Hfu) t _ _ Ct Tt) as [Hasc Hcur]. unfold pcs_of in Hasc, Hcur. rewrite Hpc in Hasc, Hcur. cbn [got_of] in Hasc, Hcur.
   pose proof (p_cur _ _ _ _ _ P) as Hcl.
-  pose proof (p_pub _ _ _ _ _ P t q b g ltac:(unfold pcs_of; exact Hpc)) as Hfull.
+  pose proof (p_pub _ _ _ _ _ (a_protF c I Hfu) t q b g ltac:(unfold pcs_of; exact Hpc)) as Hfull.
   rewrite (pub_incr_n q Hq) in *.
   split; [exact Hb|]. split; [exact Hq|].
   unfold step. rewrite Hpc. rewrite (pub_incr_n q Hq). rewrite wadd_nowrap by assumption.
@@ -1011,14 +1392,19 @@ Proof.
     + intros t b n H. discriminate H.
     + intros t u b n b' n' _ H. discriminate H.
     + intros t b n H. discriminate H.
-    + intros t b n H. discriminate H.
-    + intros t q b g H. discriminate H.
-    + intros t q b g H. discriminate H.
-    + intros _. left. reflexivity.
-  - unfold helds. cbn [cov app s_cur]. rewrite gather_nil by reflexivity. apply tiling_empty.
+    + intros t H. discriminate H.
   - discriminate.
   - intros t. exact I0.
   - reflexivity.
+  - intros _. unfold helds. cbn [cov app s_cur]. rewrite gather_nil by reflexivity. reflexivity.
+  - intros _. split; cbn [init c_pool c_trace c_sh init_ts].
+    + cbn [s_c s_y s_cur]. unfold pcs_of. cbn [c_pool init_ts t_pc]. split.
+      * intros t b n H. discriminate H.
+      * intros t q b g H. discriminate H.
+      * intros t q b g H. discriminate H.
+      * intros _. left. reflexivity.
+    + unfold helds. cbn [cov app s_cur]. rewrite gather_nil by reflexivity. apply tiling_empty.
+    + intros t. exact I0.
 Qed.
 
 Theorem iA_exec progs sched :
